@@ -53,6 +53,11 @@ def Scores.keys (m : Scores) : List String := m.map (·.1)
 /-- `_, ok := m[k]` -/
 def Scores.has (m : Scores) (k : String) : Bool := m.any (fun e => e.1 == k)
 
+/-- `m[k]` (0 when missing) -/
+def Scores.get : Scores → String → Int
+  | [], _ => 0
+  | (k', v) :: m, k => if k' = k then v else Scores.get m k
+
 /-- `m[k] = v` for a key that is not present. -/
 def Scores.addNew (m : Scores) (k : String) (v : Int) : Scores := m ++ [(k, v)]
 
@@ -181,7 +186,7 @@ inductive Outcome where
   | ok (fanout : List (Sender × List String))
   /-- `selectOutbounds` panicked (in production: the node process dies) -/
   | panic
-deriving Repr
+deriving Repr, DecidableEq
 
 def Outcome.isPanic : Outcome → Bool
   | .panic => true
